@@ -154,10 +154,17 @@ local function _lua_invoke(mod_name, fn_name, frame, page_title, timeout)
         prepare_frame_args(pframe)
     end
 
+    -- An #invoke reached from inside another one (frame:preprocess,
+    -- expandTemplate, ...) runs under the time limit of the outermost
+    -- invocation: installing and then clearing its own hook would leave the
+    -- rest of the enclosing invocation without any limit.
+    local nested = _python_top_env() ~= nil
     local mod_env = _mw_clone(_python_top_env() or _G)
     _python_append_env(mod_env)
     -- Set time limit for execution of the Lua code
-    _lua_set_timeout(timeout)
+    if not nested then
+        _lua_set_timeout(timeout)
+    end
 
     -- Load the module.  Note that the initializations above must be done before
     -- loading the module, as the module could refer to, e.g., page title
@@ -185,7 +192,9 @@ local function _lua_invoke(mod_name, fn_name, frame, page_title, timeout)
     end
     -- Call the function in the module
     local st, v = pcall(fn, frame)
-    _lua_clear_timeout_hook()
+    if not nested then
+        _lua_clear_timeout_hook()
+    end
     -- print("Lua sandbox:", tostring(v))
     if type(v) == "string" then
         return st, v
